@@ -1,11 +1,14 @@
 import JoblibModel.FuncCode
+import JoblibModel.FuncCodeFault
 import JoblibModel.FuncCodeText
 import JoblibModel.IOUtil
 /-! Driver for C12: a stateful interpreter of histories over `JoblibModel.FuncCode.step`.
 
-  reset <f10:0|1> <f38:0|1> <wkl:0|1> <f46:0|1>
+  reset <f10:0|1> <f38:0|1> <wkl:0|1> <f46:0|1> <wfr:0|1>
                              which tree is modelled: f10 / f38 / f46: 1 = with that repair; wkl: 1 = the writer
-                             key contains the location (the code as it is), 0 = `writer_key = func_id`  → ok
+                             key contains the location (the code as it is), 0 = `writer_key = func_id`; wfr: 1 = a
+                             failing write of func_code.py raises to the caller (the code as it is), 0 = it is
+                             swallowed (`JoblibModel.FuncCodeFault`)                                  → ok
   def <obj> <src> <0|1> <loc>
                              a `def` (1) or `lambda` (0): function <obj>, code object (<obj>, <src>),
                              wrapper <obj> of a Memory on directory <loc> (canonical spelling)          → ok
@@ -18,6 +21,9 @@ import JoblibModel.IOUtil
   damage <dir> <delete|unreadable|other>                                                       → ok
   clearall <dir>             Memory.clear() of a Memory on directory <dir>                     → ok
   fresh                      → ok
+  fault <open|write> <call …|check …|clearfn …|any other operation>
+                             the operation runs while the next `open(func_code.py, "wb")` / the `write` after it
+                             fails (one-shot, armed for this operation only)        → the operation's reply | raised
 
 Text layer (`JoblibModel.FuncCodeText`; stateless, allowed at any time; a text is its code points in decimal, `-` = empty):
   text-write <first_line> <cp>*       what `_write_func_code` writes                      → text <cp>*
@@ -32,6 +38,7 @@ abbrev RV := Nat × Nat
 
 structure DS where
   cfg : Option Cfg := none
+  swallow : Bool := false
   st : State RV := {}
 
 def sem : Src → Nat → RV := fun k a => (k, a)
@@ -59,6 +66,11 @@ def pOp : List String → Option Op
   | ["damage", d, "other"] => do pure (.damage (← d.toNat?) .other)
   | ["clearall", d] => do pure (.clearAll (← d.toNat?))
   | ["fresh"] => some .fresh
+  | _ => none
+
+def pFault : String → Option WriteFault
+  | "open" => some .onOpen
+  | "write" => some .onWrite
   | _ => none
 
 def pText : List String → Option FuncCodeText.Text
@@ -96,10 +108,16 @@ def handle (s : DS) (line : String) : DS × String :=
   match tokens line with
   | ts@("text-write" :: _) | ts@("text-extract" :: _) | ts@("text-compare" :: _) =>
     (s, (handleText ts).getD "bad-op")
-  | ["reset", a, b, c, d] =>
-    match pBit a, pBit b, pBit c, pBit d with
-    | some a, some b, some c, some d => ({ cfg := some ⟨a, b, c, d⟩ }, "ok")
-    | _, _, _, _ => (s, "bad-op")
+  | ["reset", a, b, c, d, e] =>
+    match pBit a, pBit b, pBit c, pBit d, pBit e with
+    | some a, some b, some c, some d, some e => ({ cfg := some ⟨a, b, c, d⟩, swallow := !e }, "ok")
+    | _, _, _, _, _ => (s, "bad-op")
+  | "fault" :: k :: ts =>
+    match s.cfg, pFault k, pOp ts with
+    | some cfg, some f, some op =>
+      let r := stepF cfg s.swallow sem s.st (.faulty f op)
+      ({ s with st := r.2 }, match r.1 with | .out o => showOut o | .raised => "raised")
+    | _, _, _ => (s, "bad-op")
   | ts =>
     match s.cfg, pOp ts with
     | some cfg, some op =>
